@@ -198,5 +198,25 @@ PROPS["C10"] = dict(
     assumptions=["resolvers of the harness never panic in this check, so every recover-hook call is gqlgen's own panic"],
 )
 
+PROPS["C03"] = dict(
+    pkg="c03", race=True, level="exploration", prepare="exec_projects",
+    projects_quick=[("core", ["v0"])], projects_thorough=[("core", ["v0"])],
+    quick=dict(shards=8, timeout=900), thorough=dict(shards=16, timeout=3000),
+    shard_env={"odd": {"VF_C03_MODE": "suggest-off"}},
+    claim="model-based testing of the request lifecycle on a generated server behind executor.Executor: rapid draws lists of up to six "
+          "instrumented extensions (ten hook subsets, some rejecting in MutateOperationParameters / MutateOperationContext), a query "
+          "cache (none, map, LRU(2), LRU(1000)) and histories of valid requests and requests invalidated by construction (syntax, "
+          "unknown field, unknown operationName, variable in wrong position, variable coercion, fragment cycle, undefined variable); "
+          "run sequentially and from 2-8 goroutines under the race detector; half of the shards run with SetDisableSuggestion(true) in "
+          "their own processes. Oracle: a rejected request produces no interceptor, directive or resolver event and errors only; an "
+          "accepted one produces every hook exactly once per operation / response / root field / field (field positions from the "
+          "reference executor), in lifecycle order, first-registered outermost; resolvers as the reference says; no race report",
+    note="which requests are invalid is known by construction, never by re-validating in process; interleavings are sampled",
+    technique="model-based property testing (rapid) of hook histories + Go race detector",
+    rule="evaluation = one request; a history is non-trivial if it has >=1 rejected and >=1 accepted request and >=2 extensions of which "
+         ">=1 implements several hooks; distinct by the whole case",
+    assumptions=["reference executor decides the set of field positions", "gqlparser decides validity of the undamaged documents"],
+)
+
 # properties deliberately not claimed (reason); anything else missing from PROPS is "not built yet"
 NOT_CLAIMED = {}
